@@ -4,7 +4,8 @@ import os, json, glob, random
 from .common import BUILD, sh
 from . import grfile
 
-MPIRUN = ["mpirun", "--allow-run-as-root", "--oversubscribe"]
+# --bind-to none: otherwise Open MPI pins every rank to one core and Galois caps the thread count at 1
+MPIRUN = ["mpirun", "--allow-run-as-root", "--oversubscribe", "--bind-to", "none"]
 POLICIES = ["oec", "iec", "oec-t", "iec-t", "hovc", "hivc", "cvc", "cvc-iec", "cvc-t", "ginger-o", "ginger-i", "fennel-o", "fennel-i", "sugar-o"]
 SYM_POLICIES = ["sym-oec", "sym-cvc"]
 
